@@ -179,6 +179,10 @@ var solverBins = map[string][]string{
 }
 
 func runSolver(name, file string, timeout time.Duration) solverResult {
+	return runSolverCtx(context.Background(), name, file, timeout)
+}
+
+func runSolverCtx(parent context.Context, name, file string, timeout time.Duration) solverResult {
 	args := append([]string{}, solverBins[name]...)
 	switch name {
 	case "z3", "z3-new":
@@ -186,7 +190,7 @@ func runSolver(name, file string, timeout time.Duration) solverResult {
 	case "cvc5":
 		args = append(args, fmt.Sprintf("--tlimit=%d", timeout.Milliseconds()), file)
 	}
-	ctx, cancel := context.WithTimeout(context.Background(), timeout+2*time.Second)
+	ctx, cancel := context.WithTimeout(parent, timeout+2*time.Second)
 	defer cancel()
 	cmd := exec.CommandContext(ctx, args[0], args[1:]...)
 	var out bytes.Buffer
@@ -230,6 +234,8 @@ func solve(query string, dir, name string, timeout time.Duration, all bool) (sol
 		return r, tried
 	}
 	ch := make(chan solverResult, 2)
+	ctx, cancel := context.WithCancel(context.Background())
+	defer cancel()
 	for _, s := range []string{"z3", "cvc5"} {
 		s := s
 		go func() {
@@ -238,7 +244,7 @@ func solve(query string, dir, name string, timeout time.Duration, all bool) (sol
 				f = strings.TrimSuffix(file, ".smt2") + ".cvc5.smt2"
 				_ = os.WriteFile(f, []byte(cvc5ify(query)), 0o644)
 			}
-			ch <- runSolver(s, f, timeout)
+			ch <- runSolverCtx(ctx, s, f, timeout)
 		}()
 	}
 	best := r
@@ -247,9 +253,15 @@ func solve(query string, dir, name string, timeout time.Duration, all bool) (sol
 		tried = append(tried, x)
 		if x.Status == "unsat" && best.Status != "unsat" && best.Status != "sat" {
 			best = x
+			if !all {
+				return best, tried // a definite answer: do not wait for the other solver (it is cancelled)
+			}
 		}
 		if x.Status == "sat" && best.Status != "unsat" {
 			best = x
+			if !all {
+				return best, tried
+			}
 		}
 	}
 	return best, tried
